@@ -315,6 +315,31 @@ theorem set_equals_ignores_repetition (a : TSel) (r : Res) (al : Bool) :
     setTestSet (.equals al false) ⟨[a], false⟩ ⟨[a, a], false⟩ r = true := by
   cases al <;> simp [setTestSet, setRelSetPos, relSetPos, relPos, Op.neg]
 
+/-- **a singleton set against any set is its member against that set, for EQUALS**: `{a} EQUALS T` holds exactly when
+`a EQUALS T` does — when `T` holds `a` and nothing else (since 2026-09: a selection no longer "equals" a larger set that
+merely contains it) -/
+theorem singleton_left_equals (a : TSel) (t : TSet) (r : Res) (al srt : Bool) :
+    setTestSet (.equals al false) ⟨[a], srt⟩ t r = testSet (.equals al false) a t r := by
+  simp only [setTestSet, testSet, setRelSetPos, relSetPos, relPos, Op.neg, List.isEmpty_cons, Bool.false_eq_true, ↓reduceIte,
+    List.all_cons, List.all_nil, Bool.and_true, List.any_cons, List.any_nil, Bool.or_false]
+  rw [Bool.eq_iff_iff]
+  simp only [Bool.and_eq_true, List.any_eq_true, List.all_eq_true, decide_eq_true_eq, Bool.not_eq_true']
+  constructor
+  · rintro ⟨⟨c, hc, _⟩, hall⟩
+    refine ⟨?_, fun x hx => (hall x hx).symm⟩
+    cases h : t.items with
+    | nil => rw [h] at hc; simp at hc
+    | cons _ _ => rfl
+  · rintro ⟨hne, hall⟩
+    refine ⟨?_, fun x hx => (hall x hx).symm⟩
+    cases h : t.items with
+    | nil => simp [h] at hne
+    | cons x xs => exact ⟨x, by simp, hall x (by simp [h])⟩
+
+/-- a selection does not equal a larger set that contains it -/
+example : testSet (.equals false false) ⟨0, 2⟩ ⟨[⟨0, 2⟩, ⟨3, 5⟩], false⟩ ⟨[]⟩ = false ∧
+    testSet (.inset false false) ⟨0, 2⟩ ⟨[⟨0, 2⟩, ⟨3, 5⟩], false⟩ ⟨[]⟩ = true := by decide
+
 /-! ### What does not hold on sets
 
 The converses and symmetries above are theorems about pairs of ranges. On sets the code reads a relation without the
